@@ -9,6 +9,7 @@ import numpy as np
 
 from .. import core
 from ..impl import machine_stubs as ms
+from ..impl import multiscale_direct as md
 from ..impl import pipelines as pl
 from ..impl.c18_worker import ds_fingerprint
 
@@ -18,7 +19,63 @@ PROP = "C15"
 def translate():
     from translator import registry
 
-    return registry.generate("Transitions", "Wiring")
+    return registry.generate("Transitions", "Wiring", "Blocks")
+
+
+_CACHE = {}
+
+
+def block_desc():
+    """the literals of the chunk loop of `disparity_range` as the translator reads them (T8)"""
+    if "blocks" not in _CACHE:
+        from translator import gen_blocks
+
+        try:
+            _CACHE["blocks"] = gen_blocks.extract()["multiscaleRange"]
+        except Exception:  # already reported by build_and_audit: fall back to the documented literals
+            _CACHE["blocks"] = {"startY": 100, "stepY": 100, "stopYDim": 0, "startX": 100, "stepX": 100, "stopXDim": 1,
+                                "beginY": ["halfm", "", 2, 1], "beginX": ["halfm", "", 2, 1]}
+    return _CACHE["blocks"]
+
+
+def split_for(window_size):
+    d = block_desc()
+    out = {k: d[k] for k in ("startY", "stepY", "stopYDim", "startX", "stepX", "stopXDim")}
+    for k in ("beginY", "beginX"):
+        b = d[k]
+        out[k] = b[1] if b[0] == "lit" else (max(window_size - b[3], 0) // b[2] if b[0] == "halfm" else window_size // b[2])
+    return out
+
+
+def translator_cross_check(report, status):
+    """the translated chunk loop against an independent reading of the live source and against the split
+    points numpy really receives from the live function"""
+    from translator import gen_blocks
+
+    try:
+        gen = gen_blocks.extract()["multiscaleRange"]
+    except Exception:  # already reported by build_and_audit
+        return
+    live = md.live_literals()
+    checks = [
+        ("disparity_range chunk_size", (gen["startY"], gen["stepY"], gen["startX"], gen["stepX"]), (live["chunk_size"],) * 4),
+        ("disparity_range offset", ((gen["beginY"][0],) + tuple(gen["beginY"][2:]), (gen["beginX"][0],) + tuple(gen["beginX"][2:])),
+         (live["offset"], live["offset"])),
+        # `ncol, nrow = shape`: the stop of the axis-0 split is the FIRST name of the unpacking, axis 1 the second
+        ("disparity_range arange stops", (gen["stopYDim"], gen["stopXDim"]),
+         tuple((live["shape_names"] or ()).index(a[1]) if a[1] in (live["shape_names"] or ()) else None for a in live["arange"])),
+    ]
+    for rows, cols, w in ((205, 103, 3), (102, 7, 3), (9, 206, 5), (6, 7, 5)):
+        try:
+            observed = md.observed_splits(rows, cols, w)
+        except Exception as exc:  # pylint: disable=broad-except
+            observed = f"disparity_range raised {type(exc).__name__}"
+        checks.append((f"disparity_range array_split calls on {rows}x{cols}, window {w}",
+                       md.expected_splits(gen, rows, cols, w), observed))
+    for what, a, b in checks:
+        report.translator_checks += 1
+        if a != b:
+            status.problem("translator", f"{what}: translator read {a}, live object/source has {b}")
 
 
 class CaptureMachine(ms.LoggedMachine):
@@ -141,7 +198,15 @@ def check_case(ctx, report, left, right, pipe, lo, hi, label):
     case = {"label": label, "pipeline": pipe, "shape": [rows, cols], "disp": [lo, hi], "seed": ctx.seed,
             "bands": "band_im" in left.coords, "mask": "msk" in left}
     fp = (ds_fingerprint(left), ds_fingerprint(right))
-    out_l, out_r, m = run_multiscale_case(left, right, pipe)
+    try:
+        out_l, out_r, m = run_multiscale_case(left, right, pipe)
+    except Exception as exc:  # pylint: disable=broad-except
+        # a legal multiscale pipeline on a well-formed pair: the run must complete, whatever it computes
+        report.case(key=json.dumps([label, pipe, rows, cols, lo, hi], sort_keys=True), nontrivial=True, sample={"pipeline": pipe})
+        report.hit("scales_executed")
+        report.fail("scales_executed", "run_raises_" + type(exc).__name__, case, {"exception": str(exc)[:300]},
+                    "pandora.run raised on a legal multiscale pipeline")
+        return
     report.case(key=json.dumps([label, pipe, rows, cols, lo, hi], sort_keys=True), nontrivial=True,
                 sample={"pipeline": pipe, "shape": [rows, cols], "levels": [(l["scale"], l["rows"], l["cols"]) for l in m.levels]})
     report.count(f"scales_{ns}")
@@ -173,7 +238,13 @@ def check_case(ctx, report, left, right, pipe, lo, hi, label):
         model = ctx.lean.call("C15.next", disp=grid_to_wire(inp["disp"]), flags=inp["flags"].tolist(),
                               window_size=inp["window_size"], marge=marge, f=f,
                               user_min=core.enc(inp["user_min"]), user_max=core.enc(inp["user_max"]),
-                              fine_rows=lvl["rows"], fine_cols=lvl["cols"])
+                              fine_rows=lvl["rows"], fine_cols=lvl["cols"], split=split_for(inp["window_size"]))
+        # the model through the chunk loop (literals of the source) is the direct model (theorem
+        # source_multiscaleRange_spec; evaluated here so that the executable chunked model is exercised on every level)
+        if model.get("blocked_min") != model["min"] or model.get("blocked_max") != model["max"]:
+            report.disagree(f"level {lvl['scale']} chunk loop", dict(case, level=lvl["scale"]), "model through the chunk loop", "direct model")
+        if max(inp["disp"].shape) - inp["window_size"] + 1 > block_desc()["stepY"]:
+            report.count("levels_cut_in_several_chunks")
         # the user interval handed to disparity_range after the level of scale s is user / f^s (theorem
         # user_interval_at_scale): the recorded value must be that, and the specification is evaluated with it
         s_scale = inp["scale"]
@@ -220,13 +291,101 @@ def check_case(ctx, report, left, right, pipe, lo, hi, label):
         report.fail("inputs_untouched", trig, case, None, "an input dataset was modified by pandora.run")
 
 
+DIRECT_SHAPES_QUICK = [(103, 7), (5, 205), (102, 3), (3, 102), (100, 12), (101, 104)]
+DIRECT_SHAPES_THOROUGH = [(3, 3), (5, 5), (99, 4), (4, 101), (201, 6), (6, 203), (104, 104), (205, 103), (7, 302)]
+
+
+def gen_direct(rng, shape=None):
+    """a synthetic coarse level: small integer disparities, invalid blobs (NaN or sentinel disparity on invalid
+    pixels only), information bits, shapes straddling the chunk size"""
+    if shape is None:
+        shape = (rng.randrange(3, 9), rng.randrange(3, 12))
+    rows, cols = shape
+    w = rng.choice([w for w in (1, 3, 5) if w <= min(rows, cols)])
+    nprng = np.random.default_rng(rng.randrange(1 << 30))
+    disp = nprng.integers(-6, 7, size=(rows, cols)).astype(np.float64)
+    if rng.random() < 0.3:
+        disp += nprng.integers(0, 4, size=(rows, cols)) / 4.0
+    flags = np.zeros((rows, cols), dtype=int)
+    info = nprng.random(size=(rows, cols)) < 0.1
+    flags[info] |= nprng.choice([4, 8, 16, 32, 1024, 2048], size=int(info.sum()))
+    dens = rng.choice([0.0, 0.05, 0.2, 0.6])
+    inv = nprng.random(size=(rows, cols)) < dens
+    for _ in range(rng.randrange(0, 3)):  # blobs, touching borders and chunk boundaries
+        r0 = rng.choice([0, rows - 2, 98, 99, 100, rng.randrange(rows)]) % rows
+        c0 = rng.choice([0, cols - 2, 98, 99, 100, rng.randrange(cols)]) % cols
+        inv[r0:r0 + rng.randrange(1, 4), c0:c0 + rng.randrange(1, 5)] = True
+    flags[inv] |= nprng.choice([1, 2, 64, 128, 256, 512, 65], size=int(inv.sum()))
+    sentinel = rng.choice([float("nan"), -9999.0, 0.0])
+    disp[inv] = sentinel
+    lo = -rng.choice([2, 3, 7]) / rng.choice([1, 2])
+    hi = rng.choice([2, 3, 7]) / rng.choice([1, 2])
+    return {"kind": "direct", "shape": [rows, cols], "window_size": w, "marge": rng.choice([0, 1, 2]),
+            "f": rng.choice([2, 2, 3]), "user_min": lo, "user_max": hi, "disp": disp, "flags": flags}
+
+
+def check_direct(ctx, report, d, label):
+    """the real `disparity_range` (chunk loop, NaN reset, zoom) on a synthetic level, times the factor as
+    `matching_cost_prepare` does, against the model, the model through the chunk loop, and the specification"""
+    rows, cols = d["shape"]
+    f, w = d["f"], d["window_size"]
+    case = {"label": label, "kind": "direct", "shape": d["shape"], "window_size": w, "marge": d["marge"], "f": f,
+            "user": [d["user_min"], d["user_max"]], "seed": ctx.seed}
+    try:
+        mn, mx = md.disparity_range_direct(d["disp"], d["flags"], w, d["marge"], f, d["user_min"], d["user_max"])
+    except Exception as exc:  # pylint: disable=broad-except
+        report.case(key=json.dumps([label, d["shape"], w, d["marge"], f]), nontrivial=True, sample={"shape": d["shape"]})
+        report.hit("finer_interval_rule")
+        report.fail("finer_interval_rule", "direct_raises_" + type(exc).__name__, case, {"exception": str(exc)[:300]},
+                    "disparity_range raised on a well-formed coarse level (window fits in the map)")
+        return
+    model = ctx.lean.call("C15.next", disp=grid_to_wire(d["disp"]), flags=d["flags"].tolist(), window_size=w,
+                          marge=d["marge"], f=f, user_min=core.enc(d["user_min"]), user_max=core.enc(d["user_max"]),
+                          fine_rows=f * rows, fine_cols=f * cols, split=split_for(w))
+    off = (w - 1) // 2
+    interior_valid = int(((d["flags"][off:rows - off, off:cols - off] & 963) == 0).sum()) if rows > 2 * off and cols > 2 * off else 0
+    report.case(key=json.dumps([label, d["shape"], w, d["marge"], f]), nontrivial=interior_valid > 0,
+                sample={"shape": d["shape"], "window_size": w, "f": f, "interior_valid": interior_valid})
+    report.count("direct_disparity_range")
+    if max(rows, cols) - w + 1 > block_desc()["stepY"]:
+        report.count("direct_cut_in_several_chunks")
+    report.hit("finer_interval_rule")
+    if ((d["flags"] & 963) != 0).any():
+        report.hit("invalid_parent_full_interval")
+    for name, g, key, skey, bkey in (("disp_min", mn, "min", "spec_min", "blocked_min"), ("disp_max", mx, "max", "spec_max", "blocked_max")):
+        if g.shape != (f * rows, f * cols):
+            report.fail("finer_interval_rule", "direct_grid_shape", case, {"grid": list(g.shape), "expected": [f * rows, f * cols]})
+            continue
+        ok, diff = same_grid(g * f, model[key])
+        if not ok:
+            report.disagree(f"direct {name}", case, diff, "model")
+        if model[bkey] != model[key]:
+            report.disagree(f"direct {name} chunk loop", case, "model through the chunk loop", "direct model")
+        ok2, d2 = same_grid(g * f, model[skey])
+        if not ok2:
+            report.fail("finer_interval_rule", "direct_" + name, case, {"first_difference": d2})
+    if not model["parent_near"]:
+        report.fail("finer_interval_rule", "parent_far", case, None)
+
+
+def run_direct(ctx, report, seed, shape, label=None):
+    import random
+
+    d = gen_direct(random.Random(seed), tuple(shape) if shape else None)
+    check_direct(ctx, report, d, label or f"direct_seed={seed},shape={d['shape'][0]}x{d['shape'][1]},given={bool(shape)}")
+
+
 def run(ctx, report, status):
+    translator_cross_check(report, status)
     report.rule = (
         "real pandora.run on small pairs with a multiscale step (num_scales 2-3, scale_factor 2-3, marge 0-2, mono/multiband, "
         "with/without masks, optional steps around it) on a machine whose callbacks record image sizes, interval grids and the "
         "coarse disparity handed to run_multiscale; sizes, interval arithmetic and the per-pixel interval of every finer level are "
         "compared exactly with the Lean model and with the specification; non-trivial = every case (>= 2 scales); distinct by "
-        "(pipeline, shape, interval)"
+        "(pipeline, shape, interval). Direct: the real disparity_range on synthetic coarse levels (integer/quarter disparities, "
+        "invalid blobs on borders and chunk boundaries with NaN/sentinel disparities, information bits, windows 1/3/5, shapes "
+        "straddling the chunk size 100: 102x3, 103x7, 5x205, 101x104...) against the model, the model through the chunk loop of "
+        "the source and the specification; non-trivial = a valid interior pixel"
     )
     rng = ctx.rng
     for name, case in core.load_corpus(PROP):
@@ -243,6 +402,10 @@ def run(ctx, report, status):
         big = (i == 3) or (ctx.thorough and i % 10 == 3)
         left, right, pipe, lo, hi = gen_case(r2, big=big)
         check_case(ctx, report, left, right, pipe, lo, hi, f"gen_seed={gs},big={big}")
+    for shape in DIRECT_SHAPES_QUICK + (DIRECT_SHAPES_THOROUGH if ctx.thorough else []):
+        run_direct(ctx, report, rng.randrange(1 << 30), shape)
+    for _ in range(ctx.n(30, 600)):
+        run_direct(ctx, report, rng.randrange(1 << 30), None)
 
 
 def search(ctx, report, status):
@@ -255,6 +418,10 @@ def search(ctx, report, status):
         check_case(ctx, sub, left, right, pipe, lo, hi, f"gen_seed={gs},big=False")
         if sub.failures:
             return sub.failures[0]
+    for i in range(60):
+        run_direct(ctx, sub, ctx.rng.randrange(1 << 30), DIRECT_SHAPES_QUICK[i % len(DIRECT_SHAPES_QUICK)] if i % 3 == 0 else None)
+        if sub.failures:
+            return sub.failures[0]
     return None
 
 
@@ -265,9 +432,14 @@ def replay(ctx, report, path):
     with open(path, encoding="utf-8") as f:
         data = json.load(f)
     case = data.get("input", data)
-    mo = re.search(r"gen_seed=(\d+),big=(\w+)", case["label"])
-    left, right, pipe, lo, hi = gen_case(random.Random(int(mo.group(1))), big=mo.group(2) == "True")
-    check_case(ctx, report, left, right, pipe, lo, hi, case["label"])
+    md_ = re.search(r"direct_seed=(\d+),shape=(\d+)x(\d+),given=(\w+)", case["label"])
+    if md_:
+        run_direct(ctx, report, int(md_.group(1)), (int(md_.group(2)), int(md_.group(3))) if md_.group(4) == "True" else None,
+                   label=case["label"])
+    else:
+        mo = re.search(r"gen_seed=(\d+),big=(\w+)", case["label"])
+        left, right, pipe, lo, hi = gen_case(random.Random(int(mo.group(1))), big=mo.group(2) == "True")
+        check_case(ctx, report, left, right, pipe, lo, hi, case["label"])
     for fl in report.failures:
         print("spec failure:", fl["clause"], fl["trigger"], json.dumps(fl["impl"], default=str)[:300], fl["detail"][:200])
     print("replayed: failures=%d disagreements=%d" % (len(report.failures), len(report.disagreements)))
